@@ -47,6 +47,10 @@ type Case struct {
 	// 2 = stream parser K<digits><blanks>; positions after such an operand are still those of the offset
 	// 3 = stream parser X that reads its operand with ReadExpr and returns ReadExpr's own error when that fails
 	Custom int `json:"custom,omitempty"`
+	// Lazy: the text is also compiled at first use, as 1 = RunExpr's argument, 2 = the body of a host-built function that
+	// is then called, 3 = a host-built computed value that is then read, 4 = DefaultDiceSideExpr used by a bare `d`:
+	// the syntax error is the one Parse gives for the same text
+	Lazy int `json:"lazy,omitempty"`
 	// Bad: raw bytes (hex) inserted into Input at byte offsets, in order, each offset counted in the text built so far:
 	// inputs that are not valid UTF-8 (a JSON string cannot carry them)
 	Bad []BadBytes `json:"bad,omitempty"`
@@ -627,6 +631,34 @@ func checkCase(c Case, s *rt.Section) (fails []*rt.Failure, outcome string, info
 				"called after a VM of another language called the same function value: "+after, "as when called first: "+alone))
 		}
 	}
+	// (a blank body is an empty program, not a syntax error)
+	if c.Lazy != 0 && strings.TrimSpace(c.Input) != "" {
+		vm, restore := newVMFor(c)
+		var err error
+		pi := rt.Guard(func() {
+			switch c.Lazy {
+			case 1:
+				_, err = vm.RunExpr(c.Input, false)
+			case 2:
+				vm.Attrs.Store("bf", ds.NewFunctionValRaw(&ds.FunctionData{Expr: c.Input, Name: "bf"}))
+				err = vm.Run("bf()")
+			case 3:
+				vm.Attrs.Store("cv", ds.NewComputedVal(c.Input))
+				err = vm.Run("cv")
+			default:
+				vm.Config.DefaultDiceSideExpr = c.Input
+				err = vm.Run("d")
+			}
+		})
+		restore()
+		got := "<no error>"
+		if err != nil {
+			got = err.Error()
+		}
+		if pi == nil && got != text {
+			fails = append(fails, s.NewFailure("parse-vs-lazy", "api:lazy-text-differs", orig, fmt.Sprintf("compiled at first use (way %d): %q", c.Lazy, got), fmt.Sprintf("Parse: %q", text)))
+		}
+	}
 	if c.ViaRun {
 		t2, rej2, pi2 := runText(c, c.Input)
 		if pi2 == nil && (!rej2 || t2 != text) {
@@ -663,6 +695,9 @@ func classify(s *rt.Section, c Case, info textInfo) {
 	}
 	if c.Custom == 3 {
 		s.Class("custom-readexpr")
+	}
+	if c.Lazy != 0 {
+		s.Class("also-compiled-at-first-use")
 	}
 	if info.entries > 1 {
 		s.Class("several-errors")
@@ -972,6 +1007,9 @@ func mutate(t *rapid.T, src string, n int, biasFirstLine bool) string {
 // drawHost draws what the host did besides choosing the VM's language: a package-wide default language (one case in
 // three) and custom dice whose match may take blanks and line breaks with it (one case in four).
 func drawHost(t *rapid.T, c *Case) {
+	if rapid.IntRange(0, 5).Draw(t, "hostLazy") == 0 {
+		c.Lazy = rapid.IntRange(1, 4).Draw(t, "lazy")
+	}
 	if rapid.IntRange(0, 2).Draw(t, "hostGlobal") == 0 {
 		c.Global = rapid.IntRange(1, 3).Draw(t, "global")
 	}
